@@ -1039,6 +1039,91 @@ fn conformant_probe(rng: &mut Rng, sut: &mut Sut, pi: usize, st: &mut Stats) -> 
     }
 }
 
+/// Any complete, well-formed template record is cached exactly as sent, whatever its field types
+/// and widths (element numbers from the whole known and unknown tables, widths 0..20, 255, 1000 and,
+/// for IPFIX, variable length) and whatever the parser has seen before. No data is sent, so nothing
+/// depends on whether such a template could be decoded.
+fn template_probe(rng: &mut Rng, sut: &mut Sut, pi: usize, pools: &Pools) -> Result<(), Div> {
+    let id = rng.range(256, 65535) as u16;
+    let width = |rng: &mut Rng| -> u16 {
+        match rng.below(10) {
+            0 => 0,
+            1 => 255,
+            2 => 1000,
+            3 => 6,
+            _ => rng.range(1, 20) as u16,
+        }
+    };
+    let nf = 1 + rng.usize(6);
+    match rng.below(4) {
+        0 => {
+            let fields: Vec<(u16, u16)> = (0..nf).map(|_| (if rng.chance(1, 5) { *rng.pick(&pools.v9_unknown) } else { *rng.pick(&pools.v9_known) }, width(rng))).collect();
+            let t = V9Tmpl { id, fields };
+            let p = V9Pkt { count: 1, sys_up_time: 1, unix_secs: 2, seq: 3, source_id: 4, flowsets: vec![V9FlowSet::Template { templates: vec![t.clone()], padding: vec![] }] };
+            let res = sut.parse(pi, &p.wire());
+            if !(res.len() == 1 && !res[0].is_error()) {
+                return Err(div("probe/v9-template", "elements", format!("well-formed template packet (template {} with fields {:?}) returned {:?}", id, t.fields, res.iter().map(kind).collect::<Vec<_>>())));
+            }
+            match sut.parsers[pi].v9_parser.templates.get(&id) {
+                Some(g) if model_v9_tmpl_eq(g, &t) => Ok(()),
+                g => Err(div("probe/v9-template/cache", "entry", format!("template {} sent with fields {:?}; the cache holds {:?}", id, t.fields, g.map(|g| g.fields.iter().map(|f| (f.field_type_number, f.field_length)).collect::<Vec<_>>())))),
+            }
+        }
+        1 => {
+            let ns = 1 + rng.usize(2);
+            let scope: Vec<(u16, u16)> = (0..ns).map(|_| (1 + rng.below(5) as u16, width(rng))).collect();
+            let opts: Vec<(u16, u16)> = (0..nf).map(|_| (if rng.chance(1, 5) { *rng.pick(&pools.v9_unknown) } else { *rng.pick(&pools.v9_known) }, width(rng))).collect();
+            let t = V9OptTmpl { id, scope, opts };
+            let len = t.wire().len();
+            let p = V9Pkt { count: 1, sys_up_time: 1, unix_secs: 2, seq: 3, source_id: 4, flowsets: vec![V9FlowSet::OptionsTemplate { templates: vec![t.clone()], padding: vec![0u8; (4 - len % 4) % 4] }] };
+            let res = sut.parse(pi, &p.wire());
+            if !(res.len() == 1 && !res[0].is_error()) {
+                return Err(div("probe/v9-options-template", "elements", format!("well-formed options template packet (id {}) returned {:?}", id, res.iter().map(kind).collect::<Vec<_>>())));
+            }
+            match sut.parsers[pi].v9_parser.options_templates.get(&id) {
+                Some(g) if model_v9_opt_eq(g, &t) => Ok(()),
+                _ => Err(div("probe/v9-options-template/cache", "entry", format!("options template {} (scope {:?}, options {:?}) is not what the cache holds", id, t.scope, t.opts))),
+            }
+        }
+        k => {
+            let mut fields: Vec<IpfixSpec> = (0..nf)
+                .map(|_| {
+                    let ent = rng.chance(1, 6);
+                    IpfixSpec { type_num: if ent { rng.u16() & 0x7fff } else if rng.chance(1, 5) { *rng.pick(&pools.ipfix_unknown) } else { *rng.pick(&pools.ipfix_known) }, len: if rng.chance(1, 8) { 65535 } else { width(rng) }, enterprise: if ent { Some(rng.b32()) } else { None } }
+                })
+                .collect();
+            if fields.iter().all(|f| f.len == 0) {
+                fields[0].len = 4;
+            }
+            let options = k == 3;
+            let scope_count = 1 + rng.usize(fields.len()) as u16;
+            let set = if options {
+                let t = IpfixOptTmpl { id, scope_count, fields: fields.clone() };
+                let len = t.wire().len();
+                IpfixSet::OptionsTemplate { records: vec![t], padding: vec![0u8; (4 - (len + 4) % 4) % 4] }
+            } else {
+                IpfixSet::Template { records: vec![IpfixTmpl { id, fields: fields.clone() }], padding: vec![] }
+            };
+            let m = IpfixMsg { export_time: 1, seq: 2, domain: 3, sets: vec![set] };
+            let res = sut.parse(pi, &m.wire());
+            let listed = match res.as_slice() {
+                [NetflowPacket::IPFix(g)] => g.flowsets.len() == 1,
+                _ => false,
+            };
+            if !listed {
+                return Err(div("probe/ipfix-template", "elements", format!("well-formed {}template message (id {}, {} fields) returned {:?} / did not list the set", if options { "options " } else { "" }, id, fields.len(), res.iter().map(kind).collect::<Vec<_>>())));
+            }
+            let c = &sut.parsers[pi].ipfix_parser;
+            let ok = if options { c.options_templates.get(&id).map(|g| g.template_id == id && g.scope_field_count == scope_count && model_ix_specs_eq(&g.fields, &fields)).unwrap_or(false) } else { c.templates.get(&id).map(|g| g.template_id == id && model_ix_specs_eq(&g.fields, &fields)).unwrap_or(false) };
+            if ok {
+                Ok(())
+            } else {
+                Err(div("probe/ipfix-template/cache", "entry", format!("{}template {} sent with {:?} is not what the cache holds", if options { "options " } else { "" }, id, fields.iter().map(|f| (f.type_num, f.len, f.enterprise)).collect::<Vec<_>>())))
+            }
+        }
+    }
+}
+
 /// Hostile cache histories: templates of any shape (zero-length fields, unsupported widths,
 /// counts that disagree with the bytes), data that cannot be decoded, mutated packets. No model of
 /// what should be cached is attached; the universal clauses are decided: an id, once cached for a
@@ -1116,6 +1201,13 @@ fn c06_hostile_family(w: &mut W, rng: &mut Rng) {
             let mut st = Stats::default();
             w.rep.count("hostile_family.probes", 1);
             if let Err(d) = conformant_probe(rng, &mut sut, pi, &mut st) {
+                w.rep.violation(sig("C06", &d), &d, sut.replay_json());
+                return;
+            }
+        }
+        if rng.chance(1, 3) {
+            w.rep.count("hostile_family.template_probes", 1);
+            if let Err(d) = template_probe(rng, &mut sut, pi, &w.pools) {
                 w.rep.violation(sig("C06", &d), &d, sut.replay_json());
                 return;
             }
